@@ -151,11 +151,14 @@ def run_case(case):
     krows = [[keys[j][i] for j in range(len(keys))] for i in range(n)]
     rank = [sorted({r[j] for r in krows if r[j] != NULL}) for j in range(len(keys))]
     traces = []
-    meta = {"cfg": {k: case.get(k) for k in ("by", "index", "method", "select", "series", "kkinds", "seed", "T")}, "k1": case["k1"], "k2": case.get("k2"), "vcols": case["vcols"]}
+    meta = {"cfg": {k: case.get(k) for k in ("by", "index", "method", "select", "series", "kkinds", "seed", "T", "roll")}, "k1": case["k1"], "k2": case.get("k2"), "vcols": case["vcols"]}
 
     allcols = dict(case["vcols"])
     if case.get("select") == "withkey":
         allcols["k1"] = case["k1"]          # a key column selected as a value column is aggregated like any other
+
+    # rolling window and min_periods as given to .rolling(): [window, min_periods or None]; default rolling(2)
+    RW, RMP = case.get("roll") or [2, None]
 
     def labels_of(idx):
         if isinstance(idx, pd.MultiIndex):
@@ -208,7 +211,7 @@ def run_case(case):
             # unjudged rows are turned into null-key rows for the trace spec? no: marked through 'judge'
             t = dict(meta, kind=fam, impl=impl, op=op, keys=k1, vals=vals, sel=sel, res=res_, out="ok", judge=sel_j)
             if W:
-                t.update(W=W, minp=W)
+                t.update(W=W, minp=(W if RMP is None else RMP))
             out.append(t)
         return out
 
@@ -225,7 +228,7 @@ def run_case(case):
         elif meth in CUM:
             traces += row_traces("facade", call(getattr(g, meth)), sel_names if meth != "cumcount" else [], "cum", meth)
         elif meth.startswith("rolling_"):
-            traces += row_traces("facade", call(getattr(g.rolling(2), meth[8:])), sel_names, "roll", meth[8:], W=2)
+            traces += row_traces("facade", call(getattr(g.rolling(RW) if RMP is None else g.rolling(RW, min_periods=RMP), meth[8:])), sel_names, "roll", meth[8:], W=RW)
         elif meth == "iter":
             glabels, grows = [], []
             posmap = {}
@@ -259,7 +262,7 @@ def run_case(case):
         elif meth == "cumcount":
             traces += row_traces("core", call(gb.cumcount), [], "cum", meth)
         elif meth.startswith("rolling_"):
-            traces += row_traces("core", call(getattr(gb, meth), vals_obj, window=2, min_periods=2), sel_names, "roll", meth[8:], W=2)
+            traces += row_traces("core", call(getattr(gb, meth), vals_obj, window=RW, min_periods=(RW if RMP is None else RMP)), sel_names, "roll", meth[8:], W=RW)
     except Exception as ex:
         traces.append(dict(meta, kind="cols", impl="core", out="raise", exc=type(ex).__name__, msg=str(ex)[:160], expected=[], got=[]))
 
